@@ -3,7 +3,7 @@
    so the UndoLayerChange snapshot of the area covers everything that changed. *)
 From Coq Require Import List ZArith NArith Bool Arith Lia.
 From IE Require Import Lib.C08Lib Gen.UndoGen Model.Undo Model.EditModel Model.EditOps Model.DocModel Model.DocOps Model.ScrollOps
-  Proofs.UndoProofs Proofs.LayerProofs Proofs.EditProofs Proofs.ApiProofs.
+  Proofs.UndoProofs Proofs.LayerProofs Proofs.EditProofs Proofs.ApiProofs Proofs.DocProofs Proofs.DocRowColProofs.
 Import ListNotations.
 Local Open Scope Z_scope.
 
@@ -86,4 +86,118 @@ Proof.
   destruct (rect_is_empty _); [injection Hb as <-; apply chain_refl|].
   unfold area_body in Hb. eapply area_body_gen_sound; [|exact Hb].
   intros s L0 ax ay aw ah L' Ha Hw Hh Hm. exact (scroll_lr_inside left (sel s) L0 ax ay aw ah L' Ha Hw Hh Hm).
+Qed.
+
+(* ================================================================================================================
+   scroll_area_up / scroll_area_down over part of the layer width (after the fix commit): every row of the area keeps the cells left and
+   right of the area, whatever piece is spliced back into it, as long as the piece is as long as the area is wide *)
+Lemma nth_error_zip_with {A B C} (f : A -> B -> C) : forall la lb k,
+  nth_error (zip_with f la lb) k = match nth_error la k, nth_error lb k with Some a, Some b => Some (f a b) | _, _ => None end.
+Proof.
+  induction la as [|a la IH]; intros lb k; [destruct k; reflexivity|].
+  destruct lb as [|b lb]; [cbn [zip_with]; destruct k; cbn [nth_error]; [reflexivity|destruct (nth_error la k); reflexivity]|].
+  destruct k; cbn [zip_with nth_error]; [reflexivity|apply IH].
+Qed.
+
+Lemma zip_with_length {A B C} (f : A -> B -> C) : forall la lb, length la = length lb -> length (zip_with f la lb) = length la.
+Proof.
+  induction la as [|a la IH]; intros [|b lb] H; try discriminate H; [reflexivity|].
+  cbn [zip_with length] in *. injection H as H. rewrite (IH lb H). reflexivity.
+Qed.
+
+Lemma cell_at_splice_drain l r row cs x : (l <= r)%nat -> length cs = (r - l)%nat -> (x < l \/ r <= x)%nat ->
+  cell_at (splice_row l cs (snd (drain_row l r row))) x = cell_at row x.
+Proof.
+  intros Hlr Hcs Hx. unfold drain_row, splice_row. cbn [snd]. set (row1 := resize_to row r invisible).
+  assert (Hlen : (r <= length row1)%nat) by apply resize_to_length.
+  rewrite <- (cell_at_resize row r x). fold row1.
+  assert (Hf : length (firstn l row1) = l) by (rewrite firstn_length; lia).
+  assert (E1 : firstn l (firstn l row1 ++ skipn r row1) = firstn l row1).
+  { rewrite <- Hf at 1. apply firstn_app_exact. }
+  assert (E2 : skipn l (firstn l row1 ++ skipn r row1) = skipn r row1).
+  { rewrite <- Hf at 1. apply skipn_app_exact. }
+  rewrite E1, E2. unfold cell_at. destruct Hx as [Hx|Hx].
+  - rewrite nth_error_app1 by lia. rewrite nth_error_firstn_lt by exact Hx. reflexivity.
+  - rewrite nth_error_app2 by lia. rewrite Hf. rewrite nth_error_app2 by lia. rewrite Hcs, nth_error_skipn.
+    replace (r + (x - l - (r - l)))%nat with x by lia. reflexivity.
+Qed.
+
+Lemma drained_length l r row : (l <= r)%nat -> length (fst (drain_row l r row)) = (r - l)%nat.
+Proof.
+  intro Hlr. unfold drain_row. cbn [fst]. pose proof (resize_to_length row r invisible) as H.
+  rewrite firstn_length, skipn_length. lia.
+Qed.
+
+Lemma Forall_split_at {A} (P : A -> Prop) n l : Forall P l -> Forall P (firstn n l) /\ Forall P (skipn n l).
+Proof. intro H. rewrite <- (firstn_skipn n l) in H. apply Forall_app in H. exact H. Qed.
+Lemma Forall_rot_left {A} (P : A -> Prop) l : Forall P l -> Forall P (rot_left l).
+Proof. intro H. unfold rot_left. apply Forall_app. destruct (Forall_split_at P 1 l H). split; assumption. Qed.
+Lemma Forall_rot_right {A} (P : A -> Prop) l : Forall P l -> Forall P (rot_right l).
+Proof. intro H. unfold rot_right. apply Forall_app. destruct (Forall_split_at P (length l - 1) l H). split; assumption. Qed.
+
+(* row k of the scrolled block: the cells outside the columns l .. r - 1 are those of row k of the block *)
+Lemma scroll_ud_rows_outside up l r rows k x : (l <= r)%nat -> (x < l \/ r <= x)%nat ->
+  length (scroll_ud_rows up l r rows) = length rows /\
+  match nth_error (scroll_ud_rows up l r rows) k, nth_error rows k with
+  | Some row', Some row => cell_at row' x = cell_at row x
+  | None, None => True
+  | _, _ => False
+  end.
+Proof.
+  intros Hlr Hx. unfold scroll_ud_rows. set (dr := map (drain_row l r) rows). set (chars := map fst dr).
+  set (chars' := if up then rot_left chars else rot_right chars).
+  assert (Hlc : length chars' = length rows).
+  { unfold chars'. destruct up; [rewrite rot_left_length|rewrite rot_right_length]; unfold chars, dr; rewrite !map_length; reflexivity. }
+  assert (Hfc : Forall (fun cs => length cs = (r - l)%nat) chars').
+  { assert (H0 : Forall (fun cs => length cs = (r - l)%nat) chars).
+    { unfold chars, dr. rewrite map_map. apply Forall_forall. intros cs Hin. apply in_map_iff in Hin. destruct Hin as (row & <- & _).
+      apply drained_length. exact Hlr. }
+    unfold chars'. destruct up; [apply Forall_rot_left|apply Forall_rot_right]; exact H0. }
+  split; [rewrite zip_with_length; [exact Hlc|rewrite Hlc; unfold dr; rewrite !map_length; reflexivity]|].
+  rewrite nth_error_zip_with. unfold dr. rewrite map_map, nth_error_map.
+  destruct (nth_error rows k) as [row|] eqn:Er; cbn [option_map].
+  - destruct (nth_error chars' k) as [cs|] eqn:Ec.
+    + apply cell_at_splice_drain; [exact Hlr| |exact Hx]. rewrite Forall_forall in Hfc. apply Hfc. eapply nth_error_In. exact Ec.
+    + apply nth_error_None in Ec. assert (k < length rows)%nat by (apply nth_error_Some; congruence). lia.
+  - destruct (nth_error chars' k); exact I.
+Qed.
+
+Lemma scroll_ud_inside up s L ax ay aw ah L' : get_area s L = (ax, ay, aw, ah) -> 0 <= aw -> 0 <= ah ->
+  mut_scroll_ud up L (ax, ay, aw, ah) = Ok L' -> differs L L' (ax, ay, aw, ah).
+Proof.
+  intros Ha _ _ H. unfold mut_scroll_ud in H. destruct (rect_is_empty (ax, ay, aw, ah)) eqn:Ee; [injection H as <-; apply differs_refl|].
+  unfold rect_is_empty in Ee. apply orb_false_elim in Ee. destruct Ee as [E1 E2]. apply Z.leb_gt in E1, E2.
+  destruct ((ax <? 0) || (ay <? 0)); [discriminate|].
+  destruct (get_area_inside _ _ _ _ _ _ Ha E1 E2) as (Hax & Hw & Hay & Hh).
+  set (top := Z.to_nat ay) in *. set (n := Z.to_nat ah) in *. set (l := Z.to_nat ax) in *. set (r := Z.to_nat (ax + aw)) in *.
+  destruct (length (l_lines L) <? top + n)%nat eqn:El; [discriminate|]. apply Nat.ltb_ge in El. injection H as <-.
+  split; [reflexivity|]. intros x' y' Hout. unfold rawL. cbn [l_lines with_lines]. rewrite !raw_cell_at.
+  set (lines := l_lines L) in *. set (rows := firstn n (skipn top lines)).
+  assert (Hrows : length rows = n) by (unfold rows; rewrite firstn_length, skipn_length; lia).
+  assert (Hft : length (firstn top lines) = top) by (rewrite firstn_length; lia).
+  destruct (lt_dec y' top) as [Hy1|Hy1].
+  - rewrite nth_error_app1 by lia. rewrite nth_error_firstn_lt by exact Hy1. reflexivity.
+  - destruct (lt_dec y' (top + n)) as [Hy2|Hy2].
+    + assert (Hxo : (x' < l \/ r <= x')%nat).
+      { destruct (Z_lt_dec (Z.of_nat x') ax) as [H1|H1]; [left; unfold l; lia|].
+        destruct (Z_le_dec (ax + aw) (Z.of_nat x')) as [H2|H2]; [right; unfold r; lia|]. exfalso.
+        assert (in_cells aw ah (Z.of_nat x' - ax) (Z.of_nat y' - ay) = true) as Hc by (apply in_cells_intro; unfold top, n in *; lia).
+        assert (inb L (Z.of_nat x') (Z.of_nat y') = true) as Hi.
+        { unfold inb. repeat (apply andb_true_intro; split); try apply Z.leb_le; try apply Z.ltb_lt; unfold top, n in *; lia. }
+        rewrite Hc, Hi in Hout. discriminate. }
+      destruct (scroll_ud_rows_outside up l r rows (y' - top) x') as [Hlen Hk]; [unfold l, r; lia|exact Hxo|].
+      rewrite nth_error_app2 by lia. rewrite Hft. rewrite nth_error_app1 by (rewrite Hlen, Hrows; lia).
+      assert (Hr : nth_error rows (y' - top) = nth_error lines y').
+      { unfold rows. rewrite nth_error_firstn_lt by lia. rewrite nth_error_skipn. f_equal. lia. }
+      rewrite Hr in Hk. destruct (nth_error (scroll_ud_rows up l r rows) (y' - top)) as [row'|]; destruct (nth_error lines y') as [row|]; try contradiction; [exact Hk|reflexivity].
+    + rewrite nth_error_app2 by lia. rewrite Hft.
+      destruct (scroll_ud_rows_outside up l r rows 0 r) as [Hlen _]; [unfold l, r; lia|right; lia|].
+      rewrite nth_error_app2 by (rewrite Hlen, Hrows; lia). rewrite Hlen, Hrows, nth_error_skipn.
+      replace (top + n + (y' - top - n))%nat with y' by lia. reflexivity.
+Qed.
+
+Lemma area_body_scroll_ud_sound up : bsound_edit (area_body (mut_scroll_ud up)).
+Proof.
+  intros e e' H. unfold area_body in H. eapply area_body_gen_sound; [|exact H].
+  intros s L0 ax ay aw ah L' Ha Hw Hh Hm. exact (scroll_ud_inside up (sel s) L0 ax ay aw ah L' Ha Hw Hh Hm).
 Qed.
